@@ -2,10 +2,12 @@
 
 package x448
 
-// c14Backend reads the switch the ladder assembly tests (CHECK_BMI2ADX, curve_amd64.s).
-func c14Backend() string {
-	if hasBmi2Adx {
-		return "asm-bmi2adx"
+// Read-out of the switch the ladder assembly tests (CHECK_BMI2ADX, curve_amd64.s). Only this file names hasBmi2Adx.
+func init() {
+	C14ReadBackend = func() string {
+		if hasBmi2Adx {
+			return "asm-bmi2adx"
+		}
+		return "asm-legacy"
 	}
-	return "asm-legacy"
 }
